@@ -2,6 +2,7 @@
 
 P = {
     "id": "C03",
+    "claimed": False,  # flip to True once bin/check is green AND Properties/C03.v has real theorems
     "coq_targets": ["Run/Eval_C03.vo"],
     "theorems_module": "Run.Eval_C03",
     "theorems": [],
